@@ -57,6 +57,9 @@ func (self ValueObject) DisplayFlat() (string, *VmInterrupt) {
 }
 
 func (self ValueObject) IsEqual(other Value) (bool, *VmInterrupt) {
+	if other.Kind() != self.Kind() {
+		return false, nil // values of different kinds (elements of an `[any]`, content of a `{ ? }`) are not equal
+	}
 	otherObj := other.(ValueObject)
 	if len(self.FieldsInternal) != len(otherObj.FieldsInternal) {
 		return false, nil // the loop below only shows self ⊆ other
